@@ -135,6 +135,19 @@ fn canary(id: u16, i: usize) -> u8 {
 
 pub const POISON: u8 = 0xFD;   // fresh / released storage
 pub const GUARD: u8 = 0xFB;    // guard zones
+static GUARD_PAGE: [u8; 4096] = [GUARD; 4096];
+static POISON_PAGE: [u8; 4096] = [POISON; 4096];
+/// `len` bytes at `p` all equal `byte` (GUARD or POISON); memcmp against a constant page, fast at opt-level 0
+pub unsafe fn all_eq(p: *const u8, len: usize, byte: u8) -> bool {
+    let page: &[u8; 4096] = if byte == GUARD { &GUARD_PAGE } else { &POISON_PAGE };
+    let mut off = 0;
+    while off < len {
+        let n = std::cmp::min(4096, len - off);
+        if std::slice::from_raw_parts(p.add(off), n) != &page[..n] { return false; }
+        off += n;
+    }
+    true
+}
 
 /// Element of the alphabet.
 pub trait Elem: 'static + Sized + Clone + Send + Sync {
